@@ -104,7 +104,34 @@ fn canon_at(v: &Value, path: &str, map_paths: &[&str], opaque: &[&str]) -> C {
                 }
             }
             cslots.sort();
+            // an attributed record whose body is the single item Extant has no body (this is
+            // how a delegated Extant body is written to the model)
+            if !cattrs.is_empty() && cslots.is_empty() && citems == vec![C::Nil] {
+                citems.clear();
+            }
             C::Rec { attrs: cattrs, items: citems, slots: cslots }
+        }
+    }
+}
+
+/// For types whose body is a `Value` field: a body made of one attribute-less record is that
+/// record's contents (`@a {{7}}` reads as the body `{7}`, whose model is `@a {7}`).
+pub fn unwrap_value_body(c: C) -> C {
+    let mut c = c;
+    loop {
+        match c {
+            C::Rec { attrs, mut items, slots } if !attrs.is_empty() && slots.is_empty() && items.len() == 1 && matches!(&items[0], C::Rec { attrs: a, .. } if a.is_empty()) => {
+                if let Some(C::Rec { items: i2, slots: s2, .. }) = items.pop() {
+                    let mut i2 = i2;
+                    if s2.is_empty() && i2 == vec![C::Nil] {
+                        i2.clear();
+                    }
+                    c = C::Rec { attrs, items: i2, slots: s2 };
+                } else {
+                    unreachable!()
+                }
+            }
+            ow => return ow,
         }
     }
 }
